@@ -168,12 +168,13 @@ def live_file_scenarios(ck, tier):
     rng = np.random.default_rng(seed() + 83)
     for ad in ADAPTERS:
         lat = sorted(ad.lattice)
-        for _ in range(3 if tier == "quick" else 12):
-            big = lat[int(rng.integers(0, len(lat)))]
-            smaller = [k for k in lat if k != big and all(a <= b for a, b in zip(k, big))]
-            if not smaller:
-                continue
-            small = smaller[int(rng.integers(0, len(smaller)))]
+        pairs = [(b, k) for b in lat for k in lat if k != b and all(x <= y for x, y in zip(k, b))]
+        crop = [p for p in pairs if tuple(p[0][1:]) == tuple(p[1][1:])]     # same parameters, smaller size: where the modules crop a larger file
+        other = [p for p in pairs if p not in crop]
+        rot = seed() % max(1, len(crop))
+        chosen = (crop[rot:] + crop[:rot])[:4 if tier == "quick" else len(crop)]
+        chosen += [other[int(i)] for i in rng.integers(0, len(other), size=2 if tier == "quick" else 8)] if other else []
+        for big, small in chosen:
             # (a well-formed file holding a smaller array than its name says cannot come from a crash, garbage or a concurrent
             #  writer of this library — it is indistinguishable from a legitimately saved basis — and is not one of the faults)
             for kind in ("garbage-in-place",):
